@@ -180,6 +180,49 @@ func checkContent(c *kit.Ctx, what string, tr getter, content map[string][]byte,
 		c.Violation("trie-iter-count", fmt.Sprintf("%s: iteration yields %d pairs, model has %d", what, n, len(content)), ops)
 		ok = false
 	}
+	// iteration from a start key (ranged dumps, resumed walks): exactly the pairs with key >= start
+	if ok && ordered && !secure && len(content) > 0 {
+		var keys []string
+		for k := range content {
+			keys = append(keys, k)
+		}
+		sort.Strings(keys)
+		var start []byte
+		switch sel := len(keys) + len(content[keys[0]]); sel % 3 {
+		case 0:
+			start = []byte(keys[sel%len(keys)]) // an existing key
+		case 1:
+			k := []byte(keys[sel%len(keys)])
+			start = append(common.CopyBytes(k[:len(k)-1]), k[len(k)-1]+1) // just above an existing key (may wrap: still a valid start)
+		default:
+			k := []byte(keys[sel%len(keys)])
+			start = k[:len(k)/2] // a proper prefix of an existing key
+		}
+		var want []string
+		for _, k := range keys {
+			if bytes.Compare([]byte(k), start) >= 0 {
+				want = append(want, k)
+			}
+		}
+		sit := trie.NewIterator(tr.NodeIterator(start))
+		i := 0
+		for sit.Next() {
+			if i >= len(want) || string(sit.Key) != want[i] || !bytes.Equal(sit.Value, content[want[i]]) {
+				exp := "<end>"
+				if i < len(want) {
+					exp = fmt.Sprintf("%x", want[i])
+				}
+				c.Violation("trie-seek-iter-mismatch", fmt.Sprintf("%s: iteration from start key %x yields %x as element %d, expected %s", what, start, sit.Key, i, exp), ops)
+				return false
+			}
+			i++
+		}
+		c.Count("seek_iterations", 1)
+		if sit.Err != nil || i != len(want) {
+			c.Violation("trie-seek-iter-mismatch", fmt.Sprintf("%s: iteration from start key %x ended after %d of %d expected pairs (err %v)", what, start, i, len(want), sit.Err), ops)
+			return false
+		}
+	}
 	return ok
 }
 
